@@ -1431,5 +1431,37 @@ class MonC15(Monitor):
             prev_end = b.tf if b.tf is not None else prev_end
         return fails
 
+    def end(self, ls):
+        """While the channel idles in EOM mode (block left open) its detuning is the off-detuning: also in the
+        samples, past the channel's last instruction."""
+        fails = []
+        seq = ls.real.seq
+        if seq.is_parametrized() or not seq._schedule:
+            return fails
+        from pulser.sampler import sample
+
+        with warnings.catch_warnings():
+            warnings.simplefilter("ignore")
+            try:
+                T = max(seq.get_duration(), 1)
+                smp = sample(seq, extended_duration=T + 24)
+            except Exception:  # noqa: BLE001 — what can be sampled is C06's clause
+                return fails
+        for name, sch in seq._schedule.items():
+            if not getattr(sch, "eom_blocks", None) or sch.eom_blocks[-1].tf is not None or not sch.slots:
+                continue
+            cs = smp.channel_samples.get(name)
+            if cs is None:
+                continue
+            off = float(sch.eom_blocks[-1].detuning_off)
+            tail = np.asarray(cs.det.as_array(detach=True) if hasattr(cs.det, "as_array") else cs.det, dtype=float)[-24:]
+            atail = np.asarray(cs.amp.as_array(detach=True) if hasattr(cs.amp, "as_array") else cs.amp, dtype=float)[-24:]
+            if np.max(np.abs(tail - off)) > 1e-9 or np.max(np.abs(atail)) > 0:
+                fails.append(self.F("idle-after-last-instruction",
+                                    f"{name} is left in EOM mode with detuning_off {off}: past its last instruction the "
+                                    f"samples carry detuning {sorted(set(np.round(tail, 9)))[:3]} / amplitude "
+                                    f"{float(np.max(np.abs(atail)))}", op="end"))
+        return fails
+
 
 MONITORS["C15"] = MonC15
